@@ -1214,3 +1214,65 @@ Print Assumptions expand_sorted_spec.
 Print Assumptions expand_sorted_canonical.
 Print Assumptions expand_one_no_imports.
 Print Assumptions expand_one_unresolvable.
+
+(* ---- import path resolution ------------------------------------------------------------ *)
+Lemma path_eqb_eq a : forall b, path_eqb a b = true <-> a = b.
+Proof.
+  induction a as [|x a IH]; intros [|y b]; cbn [path_eqb]; split; intros H; try reflexivity; try discriminate.
+  - apply andb_prop in H as [H1 H2]. apply N.eqb_eq in H1. apply IH in H2. now subst.
+  - injection H as -> ->. rewrite N.eqb_refl. now apply IH.
+Qed.
+
+Lemma position_of_nth p keys i : position_of p keys = Some i -> nth_error keys i = Some p.
+Proof.
+  revert i. induction keys as [|k r IH]; intros i; cbn [position_of]; [discriminate|].
+  destruct (path_eqb k p) eqn:E.
+  - intros H. injection H as <-. apply path_eqb_eq in E. now subst.
+  - destruct (position_of p r) as [j|]; [|discriminate]. intros H. injection H as <-. cbn [nth_error]. now apply IH.
+Qed.
+
+Lemma position_of_first p keys i :
+  position_of p keys = Some i -> forall j, (j < i)%nat -> nth_error keys j <> Some p.
+Proof.
+  revert i. induction keys as [|k r IH]; intros i; cbn [position_of]; [discriminate|].
+  destruct (path_eqb k p) eqn:E.
+  - intros H. injection H as <-. intros j Hj. inversion Hj.
+  - destruct (position_of p r) as [i'|] eqn:Er; [|discriminate]. intros H. injection H as <-.
+    intros [|j] Hj; cbn [nth_error].
+    + intros Hk. injection Hk as ->. assert (path_eqb p p = true) by now apply path_eqb_eq. congruence.
+    + apply (IH i' eq_refl). lia.
+Qed.
+
+Lemma position_of_none p keys : position_of p keys = None -> ~ In p keys.
+Proof.
+  induction keys as [|k r IH]; cbn [position_of]; [intros _ []|].
+  destruct (path_eqb k p) eqn:E; [discriminate|].
+  destruct (position_of p r); [discriminate|]. intros _ [H|H].
+  - subst. assert (path_eqb p p = true) by now apply path_eqb_eq. congruence.
+  - now apply IH.
+Qed.
+
+(* An import resolves to a module whose path is EXACTLY the written path, or exactly
+   the written path relative to the directory of the importing file - never to a
+   module that merely ends with it; the exact path wins; an unmatched import is
+   unresolved. *)
+Theorem get_key_offset_sound file keys includer i :
+  get_key_offset file keys includer = Some i ->
+  nth_error keys i = Some file
+  \/ (~ In file keys /\ exists dir, parent_of includer = Some dir /\ nth_error keys i = Some (dir ++ file)).
+Proof.
+  unfold get_key_offset. destruct (position_of file keys) as [j|] eqn:E.
+  - intros H. injection H as <-. left. now apply position_of_nth.
+  - destruct (parent_of includer) as [dir|]; [|discriminate]. intros H. right.
+    split; [now apply position_of_none|]. exists dir. split; [reflexivity|now apply position_of_nth].
+Qed.
+
+Theorem get_key_offset_complete file keys includer :
+  get_key_offset file keys includer = None ->
+  ~ In file keys /\ forall dir, parent_of includer = Some dir -> ~ In (dir ++ file) keys.
+Proof.
+  unfold get_key_offset. destruct (position_of file keys) as [j|] eqn:E; [discriminate|].
+  split; [now apply position_of_none|]. intros dir Hd. rewrite Hd in H. now apply position_of_none.
+Qed.
+
+Print Assumptions get_key_offset_sound.
